@@ -7,7 +7,7 @@ import random
 import numpy as np
 
 from .. import gen as G
-from ..common import Invalid, Violation, fp, same_value, derive
+from ..common import Invalid, UnexecutableGraph, Violation, fp, same_value, derive
 from ..schedsim import Sim, POLICIES
 
 ID = "C10"
@@ -114,6 +114,9 @@ def execute(case, stats, log):
             out = sim.run(g, keys)
         except Violation:
             raise
+        except UnexecutableGraph as e:
+            # precondition of the property (closed, acyclic graph) fails: no order yields results
+            raise Violation(ID, "unexecutable-graph", str(e))
         except G.fakes.InjectedIOError:
             raise
         except Exception as e:  # noqa: BLE001
